@@ -44,6 +44,12 @@ def get_prop(pid):
     if pid == "C11":
         import p_attack
         return p_attack.AttackProp("C11")
+    if pid == "C14":
+        import p_super
+        return p_super.SuperProp()
+    if pid == "C20":
+        import p_comm
+        return p_comm.CommProp()
     raise SystemExit(f"unknown property {pid}")
 
 
